@@ -216,8 +216,9 @@ def view_state(ex, app=0):
             if v is not None:
                 sregs.append([b, i, v])
     sarrays = sorted([a, list(l)] for a, l in shm._arrays._arrays.items())
-    um = [x is not None for x in ex._qubit_unit_modules[app]]
-    return dict(regs=regs, arrays=arrays, sregs=sregs, sarrays=sarrays, um=um)
+    um = list(ex._qubit_unit_modules[app])       # physical id mapped to each virtual id (None = free)
+    used = sorted(ex._used_physical_qubit_addresses)
+    return dict(regs=regs, arrays=arrays, sregs=sregs, sarrays=sarrays, um=um, used=used)
 
 
 def run_case(case):
@@ -373,9 +374,10 @@ def cq_expect(r):
     sregs = cq_list(f"({b}, {i}, {cq_z(v)})" for b, i, v in s["sregs"])
     arrs = cq_list(f"({cq_z(a)}, {cq_list(cq_cell(x) for x in l)})" for a, l in s["arrays"])
     sarrs = cq_list(f"({cq_z(a)}, {cq_list(cq_cell(x) for x in l)})" for a, l in s["sarrays"])
-    um = cq_list("true" if x else "false" for x in s["um"])
+    um = cq_list(cq_cell(x) for x in s["um"])
+    used = cq_list(cq_z(x) for x in s["used"])
     pc = -999999 if r["pc"] is None else r["pc"]
-    return f"mkX {cq_out(r['out'])} {cq_z(pc)} {regs} {arrs} {sregs} {sarrs} {um}"
+    return f"mkX {cq_out(r['out'])} {cq_z(pc)} {regs} {arrs} {sregs} {sarrs} {um} {used}"
 
 
 def cq_case(case, results):
@@ -553,6 +555,10 @@ FAULT_TARGETS = ["store-undef-reg", "store-undef-index", "load-undef-entry", "lo
                  "alloc-free-cycle", "counting-loop"]
 
 
+ALLOC_TARGETS = {"double-alloc", "free-unallocated", "qalloc-outside", "qalloc-undef", "qfree-outside",
+                 "qfree-undef", "alloc-free-cycle"}
+
+
 def gen_fault_case(rng, target, fuel=60):
     """a mostly valid program with ONE instruction aimed at the given fault, placed
     between filler instructions; later subroutines see the state left behind"""
@@ -613,9 +619,18 @@ def gen_fault_case(rng, target, fuel=60):
     filler1 = [gen_instr(rng, P, 0, kind=rng.choice(["set", "add", "sub", "lea", "ret_reg"])) for _ in range(rng.randint(0, 3))]
     filler2 = [gen_instr(rng, P, 0, kind=rng.choice(["set", "add", "sub", "lea", "ret_reg"])) for _ in range(rng.randint(0, 3))]
     prog = pre + filler1 + aim + filler2
-    subs = [prog]
-    if rng.random() < 0.5:
-        subs.append(gen_program(rng, P, 8, with_prelude=False))
+    # the application goes on after the fault: further subroutines run against the state it left
+    subs = [prog, gen_program(rng, P, 8, with_prelude=False)]
+    if target in ALLOC_TARGETS or rng.random() < 0.25:
+        # bookkeeping probes: allocate every virtual id in random order (one subroutine each, so
+        # that a fault on an id that is already taken does not hide the others), then free some
+        order = list(range(cap))
+        rng.shuffle(order)
+        for v in order:
+            subs.append([["set", q, v], ["qalloc", q]])
+        for v in order[:rng.randint(0, cap)]:
+            subs.append([["set", q, v], ["qfree", q]])
+        subs.append([["set", q, rng.randint(0, cap - 1)], ["qalloc", q], ["ret_reg", q]])
     return dict(cap=cap, fuel=fuel, subs=subs, tag="aimed:" + target)
 
 
